@@ -26,6 +26,9 @@ def conditions(tier, seed):
         for sh in range(31):
             out.append(Cond('assoc_3x3_s%d' % sh, 'c11_cons.py', dict(uid_type='UNIQUE_ID', n=3, shard=sh, nshards=31), func='check_assoc', timeout=t,
                             bound='as assoc, every 3x3 link matrix, cardinality combination %d of 31' % sh, case_split=['mat', 'mat2', 'refl'], twin=False))
+    out.append(Cond('ref_ident', 'c11_cons.py', {}, func='check_ref_ident', timeout=t,
+                    bound='identifier that is also referential: two instances related to one of two referred instances or to none, conditional and unconditional referred end',
+                    case_split=['x', 'y', 'cond']))
     out.append(Cond('subtype', 'c11_cons.py', {}, func='check_subtype', timeout=t,
                     bound='3 supertype instances, two subtypes each related to none or one of them', case_split=['x', 'y']))
     out.append(Cond('cli', 'c11_cons.py', {}, func='check_cli', timeout=t,
